@@ -149,6 +149,10 @@ func isLockStep(l string) bool {
 	return false
 }
 
+// all explored schedules are checked by the occupancy oracle; one in emitEvery of the passing ones also goes to the Coq model
+var emitEvery = 1
+var emitCount int
+
 func report(c *core.Ctx, cs Case, r sched.Result, info *runInfo) {
 	cs.Choices = r.Chosen
 	c.Begin(cs)
@@ -281,6 +285,11 @@ func report(c *core.Ctx, cs Case, r sched.Result, info *runInfo) {
 	if nt > 1 && sameKey && (contended || len(r.Steps) > 0) {
 		c.Nontrivial()
 	}
+	emitCount++
+	if emitEvery > 1 && emitCount%emitEvery != 0 && fail == "" {
+		c.Count("explored_oracle_only")
+		return
+	}
 	progs := make([]string, nt)
 	results := make([]string, nt)
 	for t := range cs.Progs {
@@ -316,44 +325,11 @@ func explore(c *core.Ctx, cs Case, maxPre, limit int) {
 		r, _ := execute(Case{RW: cs.RW, Prefix: cs.Prefix, Progs: [][]Block{{}}}, sched.NonPreemptive)
 		base = r.Chosen
 	}
-	count := 0
-	var rec func(prefix []int) bool
-	rec = func(prefix []int) bool {
-		if count >= limit {
-			return false
-		}
+	sched.ExploreBFS(func(prefix []int) sched.Result {
 		r, info := execute(cs, sched.Prefix(prefix))
-		count++
 		report(c, cs, r, info)
-		for j := len(prefix); j < len(r.Chosen); j++ {
-			if j < len(base) {
-				continue
-			}
-			pre := 0
-			for i := len(base) + 1; i < j; i++ {
-				if r.Chosen[i] != r.Chosen[i-1] && has(r.Enabled[i], r.Chosen[i-1]) {
-					pre++
-				}
-			}
-			for _, alt := range r.Enabled[j] {
-				if alt == r.Chosen[j] {
-					continue
-				}
-				p := pre
-				if j > len(base) && has(r.Enabled[j], r.Chosen[j-1]) && alt != r.Chosen[j-1] {
-					p++
-				}
-				if p > maxPre {
-					continue
-				}
-				if !rec(append(append([]int{}, r.Chosen[:j]...), alt)) {
-					return false
-				}
-			}
-		}
-		return true
-	}
-	rec(base)
+		return r
+	}, base, maxPre, limit, func(sched.Result) {})
 }
 
 func has(s []int, x int) bool {
@@ -437,7 +413,8 @@ func run(c *core.Ctx) {
 		{Progs: [][]Block{{L("Lock", 0)}, {L("Lock", 0)}, {L("TryLock", 0)}}},
 	}
 	maxPre := c.N(2, 3, 2)
-	limit := c.N(120, 3000, 600)
+	limit := c.N(400, 3000, 800)
+	emitEvery, emitCount = c.N(25, 25, 1), 0
 	for i, b := range battery {
 		b.Kind = fmt.Sprintf("explore_%d", i)
 		explore(c, b, maxPre, limit)
@@ -457,23 +434,26 @@ func run(c *core.Ctx) {
 		{LU(0), H(2)},              // amended dirty map, key 0 in both
 	}
 	small := []Case{
+		// first use of a fresh key (rebuilds the dirty map, expunges cleared keys) racing the re-acquisition of key 0,
+		// followed by an unlock that promotes the dirty map and a TryLock that must see the key held
+		{Progs: [][]Block{{L("Lock", 3)}, {H(0)}, {L("TryLock", 0)}}},
+		{Progs: [][]Block{{L("Lock", 3), L("TryLock", 0)}, {H(0)}}},
+		{RW: true, Progs: [][]Block{{L("Lock", 3), L("TryRLock", 0)}, {H(0)}}},
 		{Progs: [][]Block{{L("Lock", 0)}, {L("Lock", 0)}}},
 		{Progs: [][]Block{{L("Lock", 0)}, {L("TryLock", 0)}}},
 		{RW: true, Progs: [][]Block{{L("RLock", 0)}, {L("Lock", 0)}}},
 		{RW: true, Progs: [][]Block{{L("Lock", 0)}, {L("TryRLock", 0)}}},
 		{Progs: [][]Block{{L("Lock", 0)}, {L("Lock", 0)}, {L("Lock", 1)}}},
 	}
-	lim2 := c.N(60, 1500, 300)
+	lim2 := c.N(400, 3000, 800)
 	for li, lay := range layouts {
-		for bi, b := range small {
-			if c.Tier == "quick" && (li+bi)%2 != int(c.Seed%2) {
-				continue // quick tier: half of the layout x program grid per run, rotating with the seed
-			}
+		for _, b := range small {
 			b.Prefix = lay
 			b.Kind = fmt.Sprintf("layout_%d", li)
 			explore(c, b, maxPre, lim2)
 		}
 	}
+	emitEvery = 1
 	// 2. random programs and schedules: 2-4 goroutines, 1-3 keys
 	for i := c.N(600, 40000, 8000); i > 0; i-- {
 		rw := c.Rng.Bool()
